@@ -91,6 +91,22 @@ func errValueKind(v ssa.Value, at *ssa.BasicBlock, depth int) RetKind {
 			case "fmt.Errorf", "errors.New":
 				return RetError
 			}
+			// an error constructor: every return of the callee is a non-nil error
+			if f.Blocks != nil && f.Signature.Results().Len() == 1 && depth < 3 {
+				all := true
+				n := 0
+				for _, b := range f.Blocks {
+					if r, ok := lastInstr(b).(*ssa.Return); ok && b != f.Recover {
+						n++
+						if errValueKind(retResult(r, 0), b, depth+1) != RetError {
+							all = false
+						}
+					}
+				}
+				if all && n > 0 {
+					return RetError
+				}
+			}
 		}
 	case *ssa.Phi:
 		k := RetKind(-1)
